@@ -32,6 +32,12 @@ type AddrVal struct {
 // CellAddr is the address of a non-escaping local variable.
 type CellAddr struct{ Alloc *ssa.Alloc }
 
+// CellFieldAddr is the address of a field of a private struct temporary (a cell holding a record).
+type CellFieldAddr struct {
+	Alloc *ssa.Alloc
+	Field int
+}
+
 type ClosureVal struct {
 	Fn       *ssa.Function
 	Bindings []Val
@@ -65,6 +71,15 @@ type State struct {
 	boxed  []*localObj               // cells whose address was boxed into an interface value
 	locals []*localObj               // heap objects allocated by this activation that have not escaped yet
 	links  []epochLink               // "allocated" havocs: how this epoch's base maps relate to an earlier epoch's
+	fwd    map[string]fwdEntry       // field maps holding a field address: the last store, forwarded to loads at the same place
+}
+
+// fwdEntry: "map[ptr] was just assigned val (a field address, which has no term
+// of its own)"; valid while the map has not been written again.
+type fwdEntry struct {
+	heap *Term // the map term right after the store
+	ptr  string
+	val  Val
 }
 
 // localObj: an object allocated by the code under verification. Until its
@@ -97,7 +112,28 @@ func (s *State) clone() *State {
 	for k, v := range s.defers {
 		n.defers[k] = append([]deferred(nil), v...)
 	}
+	if len(s.fwd) > 0 {
+		n.fwd = make(map[string]fwdEntry, len(s.fwd))
+		for k, v := range s.fwd {
+			n.fwd[k] = v
+		}
+	}
 	return n
+}
+
+// loadLocVal: like loadLoc, for places that may hold a field address (which is
+// not a term): answered from the last store when it is to the same place, and
+// refused otherwise - such an address is never read back as an ordinary pointer.
+func (u *Unit) loadLocVal(st *State, mapName string, elem Sort, p *Term) (Val, bool) {
+	if e, ok := st.fwd[mapName]; ok {
+		if st.heap[mapName] == e.heap && e.ptr == p.S {
+			return e.val, true
+		}
+	}
+	if u.addrMaps[mapName] {
+		unsupp("load from %s: it holds the address of a struct field and the store cannot be matched to this load", mapName)
+	}
+	return nil, false
 }
 
 // ---------------------------------------------------------------------------
@@ -907,6 +943,9 @@ func sameVal(a, b Val) bool {
 	case *CellAddr:
 		bb, ok := b.(*CellAddr)
 		return ok && a.Alloc == bb.Alloc
+	case *CellFieldAddr:
+		bb, ok := b.(*CellFieldAddr)
+		return ok && a.Alloc == bb.Alloc && a.Field == bb.Field
 	case *ClosureVal:
 		bb, ok := b.(*ClosureVal)
 		if !ok || a.Fn != bb.Fn || len(a.Bindings) != len(bb.Bindings) {
